@@ -305,7 +305,12 @@ class Session(BaseSession):
         self.database = database
 
     def _parse(self, sql: str) -> List[exp.Expression]:
-        return [e for e in self.dialect().parse(sql) if e]
+        # A comment after the last ";" parses to a bare exp.Semicolon, which is not a statement
+        return [
+            e
+            for e in self.dialect().parse(sql)
+            if e and not isinstance(e, exp.Semicolon)
+        ]
 
     async def _query_info_schema(self, expression: exp.Expression) -> AllowedResult:
         return await ensure_info_schema(await self.schema()).query(expression)
